@@ -22,10 +22,11 @@ MODELS = ['gain', 'gain-blk-offset', 'gain-offset']
 def gen_case(run, i):
     rng = run.rng(i)
     family = rng.choice(['dyadic', 'dyadic', 'decimal'])
-    # stratified over (model, processing grid, source nodata encoding): every combination within 18 consecutive cases
+    # stratified over (model, processing grid, source nodata encoding): every combination within 24 consecutive cases
     model = MODELS[i % 3]
     want_src_grid = (i // 3) % 2 == 1
-    src_nodata = ['nan', -9999.0, 'mask'][(i // 6) % 3]
+    # (-9999.9: a float64 file whose nodata value is no float32 number - the blocks are read as float32)
+    src_nodata = ['nan', -9999.0, 'mask', -9999.9][(i // 6) % 4]
     proc = rng.choice(['auto', 'src']) if want_src_grid else rng.choice(['auto', 'auto', 'ref'])
     src, ref = rasters.pair_geometry(rng, family, proc, max_src=28, margin=(1, 3))
     if proc == 'auto' and want_src_grid != (src.px > ref.px) and src.px != ref.px:
@@ -89,7 +90,8 @@ def run(run: common.Run):
         try:
             for tag, (fs, fr) in dict(base=(1.0, 1.0), srcx=(a, 1.0), refx=(1.0, c)).items():
                 pair = fusion.write_pair(tmp, f'c07_{tag}', src, ref, s * fs, r * fr, sv, rv,
-                                         src_nodata=case['src_nodata'], ref_nodata=case['ref_nodata'])
+                                         src_nodata=case['src_nodata'], ref_nodata=case['ref_nodata'],
+                                         dtype='float64' if case['src_nodata'] == -9999.9 else 'float32')
                 outs[tag], case['halvings'] = fusion.run_fuse_blocks(
                     case['halvings'], src, ref, proc_ref_guess, pair.src_path, pair.ref_path, tmp / f'c07_{tag}_out.tif',
                     model=case['model'], kernel_shape=case['kernel'], proc_crs=case['proc'], param=True,
@@ -103,6 +105,7 @@ def run(run: common.Run):
             continue
         run.evaluations += 1
         run.hist[f"model={case['model']}"] += 1
+        run.hist[f"source nodata={case['src_nodata']}"] += 1
         run.hist['power-of-two factors' if case['pow2'] else 'general factors'] += 1
         run.hist[f"proc={outs['base'].proc_crs}"] += 1
         run.hist['blocks>1' if case['halvings'] else 'blocks=1'] += 1
